@@ -85,7 +85,7 @@ func newPredicate(c *core.Ctx, name string) *predicate {
 		return nil
 	}
 	p := &predicate{c: c, fn: fn, info: fn.Pkg.TypesInfo, x: tt.New(cfgq.Of(c.Program, fn)), helpers: map[string]*ast.CallExpr{}, r2: map[string]func(){}}
-	p.x.Prog = c.Program
+	p.x.Prog, p.x.LoopDecisions = c.Program, true
 	for _, f := range fn.Decl.Type.Params.List {
 		for _, n := range f.Names {
 			p.params = append(p.params, p.info.Defs[n])
@@ -176,6 +176,16 @@ func (p *predicate) classify(l tt.Lit) (string, bool, bool) {
 	if f, ok := tt.IsConfField(info, e, fLua); ok {
 		return f, true, true
 	}
+	// strings.ToLower(cmd) == "name" (also as a tagged switch) is EqualFold(cmd, "name") for a lower-case name
+	if be, ok := e.(*ast.BinaryExpr); ok && (be.Op == token.EQL || be.Op == token.NEQ) {
+		for _, pair := range [][2]ast.Expr{{be.X, be.Y}, {be.Y, be.X}} {
+			if name, args := stringsCall(info, tt.Resolve(info, body, pair[0], 2)); name == "ToLower" && len(args) == 1 && p.isParam(args[0], 0) {
+				if s, ok := core.StringConst(info, pair[1]); ok && s == strings.ToLower(s) {
+					return "cmd~" + s, be.Op == token.EQL, true
+				}
+			}
+		}
+	}
 	if name, args := stringsCall(info, e); name != "" && len(args) == 2 {
 		a, b := args[0], args[1]
 		switch name {
@@ -235,16 +245,16 @@ func (p *predicate) classify(l tt.Lit) (string, bool, bool) {
 	}
 	// slot == <Atoi of a list element>
 	if be, ok := e.(*ast.BinaryExpr); ok && (be.Op == token.EQL || be.Op == token.NEQ) && l.Loop != nil {
-		rs, _ := l.Loop.(*ast.RangeStmt)
+		list, isElem := loopElem(info, l.Loop)
 		for _, pair := range [][2]ast.Expr{{be.X, be.Y}, {be.Y, be.X}} {
-			if !p.isParam(pair[0], 0) || rs == nil {
+			if !p.isParam(pair[0], 0) || list == nil {
 				continue
 			}
-			fld, ok := p.confList(rs.X)
+			fld, ok := p.confList(list)
 			if !ok {
 				continue
 			}
-			if p.intOfElement(pair[1], rs) {
+			if p.intOfElement(pair[1], isElem) {
 				return "listed(" + fld + ")", be.Op == token.EQL, true
 			}
 		}
@@ -253,7 +263,7 @@ func (p *predicate) classify(l tt.Lit) (string, bool, bool) {
 }
 
 // intOfElement: e is the integer parsed from the range value of rs.
-func (p *predicate) intOfElement(e ast.Expr, rs *ast.RangeStmt) bool {
+func (p *predicate) intOfElement(e ast.Expr, isElem func(ast.Expr) bool) bool {
 	d, ok := tt.SingleDef(p.info, p.fn.Decl.Body, e)
 	if !ok || d.Rhs == nil {
 		return false
@@ -266,7 +276,36 @@ func (p *predicate) intOfElement(e ast.Expr, rs *ast.RangeStmt) bool {
 	if f == nil || f.Pkg() == nil || f.Pkg().Path() != "strconv" || f.Name() != "Atoi" || d.Index != 0 {
 		return false
 	}
-	return rs.Value != nil && pat.Same(p.info, call.Args[0], rs.Value)
+	return isElem(call.Args[0])
+}
+
+// loopElem abstracts the loop form of a scan over a list: `for _, x := range l` (element x),
+// `for i := range l` and `for i := 0; i < len(l); i++` (element l[i]). It returns the list and a
+// test for "this expression is the current element".
+func loopElem(info *types.Info, loop ast.Stmt) (ast.Expr, func(ast.Expr) bool) {
+	same := func(a, b ast.Expr) bool { return a != nil && b != nil && pat.Same(info, a, b) }
+	indexed := func(list ast.Expr, idx ast.Expr) func(ast.Expr) bool {
+		return func(e ast.Expr) bool {
+			ix, ok := ast.Unparen(e).(*ast.IndexExpr)
+			return ok && same(ix.X, list) && same(ix.Index, idx)
+		}
+	}
+	switch s := loop.(type) {
+	case *ast.RangeStmt:
+		if s.Value != nil {
+			byIdx := indexed(s.X, s.Key)
+			return s.X, func(e ast.Expr) bool { return same(e, s.Value) || s.Key != nil && byIdx(e) }
+		}
+		if s.Key != nil {
+			return s.X, indexed(s.X, s.Key)
+		}
+	case *ast.ForStmt:
+		// for i := 0; i < len(l); i++
+		if b := pat.Expr("_i < len(_l)").Match(info, s.Cond, nil); b != nil {
+			return b["_l"].(ast.Expr), indexed(b["_l"].(ast.Expr), b["_i"].(ast.Expr))
+		}
+	}
+	return nil, func(ast.Expr) bool { return false }
 }
 
 func (p *predicate) checkpointKey() string {
@@ -506,35 +545,55 @@ func helperKind(c *core.Ctx, h *core.Fn, subjIdx, listIdx int) string {
 		return ok && o != nil && core.ObjOf(info, id) == o
 	}
 	x := tt.New(cfgq.Of(c.Program, h))
+	x.Prog, x.LoopDecisions = c.Program, true
 	traces, err := x.Traces(x.G.CFG.Blocks[0], 0, nil, 50)
 	if err != nil {
 		return ""
 	}
 	kind := ""
 	rows, err := x.Table(traces, 0, func(l tt.Lit) (string, bool, bool) {
-		rs, _ := l.Loop.(*ast.RangeStmt)
-		if rs == nil || !is(rs.X, params[listIdx]) || rs.Value == nil {
+		if l.Loop == nil {
 			return "", false, false
 		}
-		elem := info.Defs[rs.Value.(*ast.Ident)]
+		list, isElemExpr := loopElem(info, l.Loop)
+		if list == nil || !is(list, params[listIdx]) {
+			return "", false, false
+		}
+		isElem := func(e ast.Expr) bool { return isElemExpr(tt.Resolve(info, h.Decl.Body, e, 1)) || isElemExpr(e) }
+		isSubj := func(e ast.Expr) bool { return is(e, params[subjIdx]) }
 		k := ""
-		if name, args := stringsCall(info, l.Expr); name != "" && len(args) == 2 {
+		classifyCall := func(name string, args []ast.Expr) string {
 			switch {
-			case is(args[0], params[subjIdx]) && is(args[1], elem):
-				k = map[string]string{"HasPrefix": "prefix"}[name]
-				if k == "" {
-					k = "strings." + name
+			case isSubj(args[0]) && isElem(args[1]):
+				if name == "HasPrefix" {
+					return "prefix"
 				}
-			case is(args[1], params[subjIdx]) && is(args[0], elem):
-				k = "strings." + name + "(entry, subject)"
+				return "strings." + name
+			case isSubj(args[1]) && isElem(args[0]):
 				if name == "EqualFold" {
-					k = "strings.EqualFold"
+					return "strings.EqualFold"
 				}
+				return "strings." + name + "(entry, subject)"
 			}
+			return ""
+		}
+		if name, args := stringsCall(info, l.Expr); name != "" && len(args) == 2 {
+			k = classifyCall(name, args)
 		} else if be, ok := ast.Unparen(l.Expr).(*ast.BinaryExpr); ok && (be.Op == token.EQL || be.Op == token.NEQ) {
-			if is(be.X, params[subjIdx]) && is(be.Y, elem) || is(be.Y, params[subjIdx]) && is(be.X, elem) {
+			if isSubj(be.X) && isElem(be.Y) || isSubj(be.Y) && isElem(be.X) {
 				kind = "equal"
 				return "hit", be.Op == token.EQL, true
+			}
+			// strings.Index(subject, entry) == 0 is strings.HasPrefix(subject, entry)
+			for _, pair := range [][2]ast.Expr{{be.X, be.Y}, {be.Y, be.X}} {
+				if name, args := stringsCall(info, pair[0]); name == "Index" && len(args) == 2 {
+					if z, isInt := core.IntConst(info, pair[1]); isInt && z == 0 {
+						if kk := classifyCall("HasPrefix", args); kk != "" {
+							kind = kk
+							return "hit", be.Op == token.EQL, true
+						}
+					}
+				}
 			}
 		}
 		if k == "" {
